@@ -58,7 +58,8 @@ PROPS["C06"] = {
              "relative/dangling/escaping symlinks, empty directories, odd names) are cached through output.Registry.WriteOutputs, each destination is put into a generated prior state "
              "(identical, absent, parent absent, modified, truncated, longer, exec flipped, stale file/dir/symlink, removed child, file where the directory should be), then Registry.LoadOutputs; "
              "recursive listings (type, exec bit, size, sha256, link target) before caching and after restore must be equal and Load must succeed. "
-             "Non-trivial = some output carries an exec file, symlink or empty directory AND some destination prior state is not 'identical'; distinct by full case."),
+             "binary-run: real binary; a bin_output target is built, its workspace copy deleted / its directory removed / truncated / chmod-ed, then `grog run <label>` must restore it without re-running the command and execute it (exit 0, expected text printed, exec bit set). "
+             "Non-trivial = roundtrip: some output carries an exec file, symlink or empty directory AND some destination prior state is not 'identical'; binary-run: the prior state is not 'intact'; distinct by full case."),
     "assumptions": [
         "permission bits other than the executable bit, directory modes, mtimes and ownership are not compared",
         "prior states not named by the property (a directory or a symlink where a file output should be) are not generated",
@@ -68,6 +69,9 @@ PROPS["C06"] = {
         {"name": "roundtrip", "pkg": "c06", "test": "TestRoundTrip",
          "quick": {"shards": 8, "checks": 4000, "cap": 900},
          "thorough": {"shards": 16, "checks": 100000, "cap": 7200}},
+        {"name": "binary-run", "pkg": "c06", "test": "TestBinaryRun", "binary": True,
+         "quick": {"shards": 16, "checks": 48, "cap": 900, "shrinktime": "30s"},
+         "thorough": {"shards": 32, "checks": 1200, "cap": 7200, "shrinktime": "60s"}},
     ],
 }
 
@@ -269,14 +273,14 @@ PROPS["C02"] = _hist("C02",
     "a build restored a target after its workspace outputs were perturbed, or rebuilt only part of the selection")
 PROPS["C13"] = _hist("C13",
     "histories: workspaces where targets may carry no-cache, steps {grog taint <label or //...>, toggle no-cache tag, content/nonce edits, builds with and without --enable-cache=false}. A tainted / no-cache / cache-disabled target must have an S line; after a successful forced run the taint is consumed (next build: MUST-NOT); dependants with a good entry whose dependency reproduced identical outputs are MUST-NOT.",
-    "a target was forced to run although a good entry for its state existed")
+    "a target was forced to run although a good entry for its state existed", quick=144)
 PROPS["C14"] = _hist("C14",
     "histories: targets carry 0-2 output checks over an external marker (outside the workspace, never an input; with and without expected_output; the command may or may not establish it), timeouts of 2 s; steps {destroy marker, set marker (right or wrong content), stop establishing, skip a declared output, make the command slow, clear switches, edits, builds}. "
     "A target whose check fails before the cache decision must run; if checks still fail after execution, or an output is missing, or the timeout hits, the build must exit non-zero, name the target, skip dependants and record nothing (next build runs it again).",
-    "the history destroys a marker, skips an output or triggers a timeout", quick=96)
+    "the history destroys a marker, skips an output or triggers a timeout", quick=144)
 PROPS["C05"] = _hist("C05",
     "histories: failing subsets chosen through undeclared switch files (exit 3, missing declared output, timeout, failing check) so that cache keys do not move, keep-going and --fail-fast builds, follow-up builds with switches cleared. Keep-going: every target without a failed transitive dependency runs or is restored, no dependant of a failed target has an S line, exit != 0, failed labels named; the follow-up build must run every previously failed target again (nothing was cached). failfast-gated: real binary, --fail-fast, F fails as soon as B1 started, B1 sleeps 3 s, B2 depends on B1: B2 must never start and grog must exit non-zero. walker: same containment rules in a synctest bubble.",
-    "a build with a failing target that has both a selected dependant and a selected independent target",
+    "a build with a failing target that has both a selected dependant and a selected independent target", quick=144,
     extra_parts=[{"name": "walker", "pkg": "c05", "test": "TestWalkerContainment",
                   "quick": {"shards": 8, "checks": 3000, "cap": 900}, "thorough": {"shards": 16, "checks": 60000, "cap": 7200}},
                  {"name": "failfast-gated", "pkg": "c05", "test": "TestFailFastGated", "binary": True,
